@@ -5744,7 +5744,10 @@ _dbus_connection_register_object_path (DBusConnection              *connection,
   dbus_bool_t retval;
 
   if (!_dbus_decompose_path (path, strlen (path), &decomposed_path, NULL))
-    return FALSE;
+    {
+      _DBUS_SET_OOM (error);
+      return FALSE;
+    }
 
   CONNECTION_LOCK (connection);
 
